@@ -150,7 +150,7 @@ def run_verus(path, rlimit=None, timeout=900, extra=()):
 
 DEFINITE = ('postcondition not satisfied', 'precondition not satisfied', 'invariant not satisfied', 'assertion failed', 'possible arithmetic underflow/overflow',
             'possible division by zero', 'index out of bounds', 'possible bit shift underflow/overflow', 'recommendation not met', 'decreases not satisfied',
-            'termination', 'unreachable', 'failed this', 'could not prove', 'cannot show', 'might', 'not satisfied', 'slice index')
+            'termination', 'unreachable', 'failed this', 'could not prove', 'cannot show', 'might', 'not satisfied', 'slice index', 'not met')
 
 def classify_diag(d, g, gen_lines):
     """-> dict(kind, fn, clause, tag, text, real_file, real_line, definite)"""
@@ -382,7 +382,14 @@ def run_unit(unit, repo='/repo', canary=True, keep=False, rlimit=None, workdir=N
                             m = re.search(r'vx_canary \( (\d+) \)', clines[k]) if k < len(clines) else None
                             if m: hit.add(int(m.group(1))); break
             missing = [e for e in expected if e[1] not in hit]
-            res['canaries'] = len(expected); res['canaries_failed_as_expected'] = len(expected) - len(missing)
+            # canaries in provably dead code can never be refuted: the unit file names how many may be missing per function
+            allow = dict(unit.get('canary_allow_missing', {}))
+            kept = []
+            for e in missing:
+                if allow.get(e[0], 0) > 0: allow[e[0]] -= 1
+                else: kept.append(e)
+            res['canaries_exempt_dead_code'] = len(missing) - len(kept); missing = kept
+            res['canaries'] = len(expected) - res['canaries_exempt_dead_code']; res['canaries_failed_as_expected'] = res['canaries'] - len(missing)
             res['canary_wall_s'] = round(cv['wall_s'], 2)
             if missing:
                 # a canary can also be swallowed by an rlimit in that function: only call it vacuous when verus said "verified" for it
